@@ -142,10 +142,25 @@ structure GW where
   deriving DecidableEq, Repr
 
 structure Config where
-  /-- PublicGateways without `*`, and those of the form `*.<suffix>` (stored by their suffix) -/
+  /-- PublicGateways whose hostname has no `*`, and those with `*` (wildcard patterns; Go keeps them in a map:
+  the model assumes at most one pattern matches a host) -/
   exact : List (Bytes × GW)
   wildcard : List (Bytes × GW)
   noDNSLink : Bool
+
+/-- one entry of Config.PublicGateways; `isIP` = net.ParseIP(stripPort(hostname)) != nil (parameter) -/
+structure RawGW where
+  hostname : Bytes
+  gw : GW
+  isIP : Bool
+
+/-- prepareHostnameGateways: UseSubdomains gateways on IP addresses are dropped; hostnames with `*`
+become wildcard patterns, the others exact entries -/
+def prepare (raw : List RawGW) (noDNSLink : Bool) : Config :=
+  let kept := raw.filter fun g => !(g.gw.useSubdomains && g.isIP)
+  { exact := (kept.filter fun g => !g.hostname.any (· == 42)).map fun g => (g.hostname, g.gw)
+    wildcard := (kept.filter fun g => g.hostname.any (· == 42)).map fun g => (g.hostname, g.gw)
+    noDNSLink := noDNSLink }
 
 def lookup (k : Bytes) : List (Bytes × GW) → Option GW
   | [] => none
@@ -163,21 +178,26 @@ def stripPort (host : Bytes) : Bytes :=
 
 def isDigit (c : Nat) : Bool := 48 ≤ c && c ≤ 57
 
-/-- `^[^.]+\.suffix(?::\d+)?$` for the gateway `*.suffix` -/
-def wildcardMatch (suffix host : Bytes) : Bool :=
-  match cut 46 host with
-  | none => false
-  | some (label, rest) =>
-    !label.isEmpty &&
-      (rest == suffix ||
-        (hasPrefix rest suffix &&
-          match rest.drop suffix.length with
-          | 58 :: ds => !ds.isEmpty && ds.all isDigit
-          | _ => false))
+/-- optional `:port` at the end of a wildcard match: `(?::\d+)?$` -/
+def portSuffixOrEnd : Bytes → Bool
+  | [] => true
+  | 58 :: ds => !ds.isEmpty && ds.all isDigit
+  | _ => false
+
+/-- The regular expression prepareHostnameGateways builds for a hostname pattern with `*`:
+every `.` is literal, every `*` is `[^.]+` (one or more bytes other than `.`), anchored, with an optional
+`:digits` port at the end.  (Other regexp metacharacters do not occur in host names.) -/
+def globMatch : Bytes → Bytes → Bool
+  | [], h => portSuffixOrEnd h
+  | _ :: _, [] => false
+  | c :: p, d :: h =>
+    if c == 42 then d != 46 && (globMatch p h || globMatch (c :: p) h)
+    else c == d && globMatch p h
+termination_by p h => (h.length, p.length)
 
 def lookupWildcard (host : Bytes) : List (Bytes × GW) → Option GW
   | [] => none
-  | (sfx, v) :: r => if wildcardMatch sfx host then some v else lookupWildcard host r
+  | (pat, v) :: r => if globMatch pat host then some v else lookupWildcard host r
 
 /-- isKnownHostname -/
 def isKnownHostname (cfg : Config) (host : Bytes) : Option GW :=
@@ -229,6 +249,14 @@ structure URL where
   fragment : Bytes
   deriving DecidableEq, Repr
 
+/-- the `?uri=` query parameter (registerProtocolHandler redirect), after url.Parse (a parameter) -/
+inductive UriParam where
+  | absent                              -- no (or empty) uri parameter
+  | unparsable                          -- url.Parse failed
+  | parsed (scheme joined : Bytes)      -- u.Scheme, and gopath.Join("/", u.Scheme, u.Host, u.EscapedPath()
+                                        --   [+ "?" + url.PathEscape(u.RawQuery)])
+  deriving DecidableEq, Repr
+
 structure Req where
   /-- r.Host -/
   host : Bytes
@@ -239,6 +267,7 @@ structure Req where
   fragment : Bytes
   /-- isHTTPSRequest: URL scheme or X-Forwarded-Proto is https -/
   https : Bool
+  uri : UriParam := .absent
 
 inductive Redir where
   | err                -- error ⇒ 400
@@ -314,6 +343,7 @@ inductive Ctx where
 
 inductive Out where
   | redirect (u : URL)                 -- 301
+  | redirectPath (p : Bytes)           -- 301 to a path on the same host (protocol-handler redirect)
   | next (path : Bytes) (ctx : Ctx)    -- next.ServeHTTP with the rewritten r.URL.Path
   | notFound                           -- 404
   | badRequest                         -- 400
@@ -325,7 +355,7 @@ def effectiveHost (r : Req) : Bytes := if r.xfh.isEmpty then r.host else r.xfh
 /-- `keepFragment` and `cidTestOnEffectiveHost` select the code after (`true`) or before (`false`) the two
 `fix:` commits that touched this handler: "keep the URL fragment in subdomain redirects" and "use the
 effective host in the canonical-CID test" (before it the test was `strings.HasPrefix(r.Host, dnsCID)`). -/
-def handle (keepFragment cidTestOnEffectiveHost : Bool) (env : Env) (cfg : Config) (r : Req) : Out :=
+def handleHost (keepFragment cidTestOnEffectiveHost : Bool) (env : Env) (cfg : Config) (r : Req) : Out :=
   let host := effectiveHost r
   match isKnownHostname cfg host with
   | some gw =>
@@ -385,5 +415,16 @@ def handle (keepFragment cidTestOnEffectiveHost : Bool) (env : Env) (cfg : Confi
       if !cfg.noDNSLink && env.hasDNSLink host then
         .next (ipnsSlash ++ stripPort host ++ r.path) (.dnslink host)
       else .next r.path .none
+
+def IPFSscheme : Bytes := [105, 112, 102, 115]
+def IPNSscheme : Bytes := [105, 112, 110, 115]
+
+/-- NewHostnameHandler: handleProtocolHandlerRedirect first, then the host-based dispatch -/
+def handle (keepFragment cidTestOnEffectiveHost : Bool) (env : Env) (cfg : Config) (r : Req) : Out :=
+  match r.uri with
+  | .unparsable => .badRequest
+  | .parsed scheme joined =>
+    if scheme != IPFSscheme && scheme != IPNSscheme then .badRequest else .redirectPath joined
+  | .absent => handleHost keepFragment cidTestOnEffectiveHost env cfg r
 
 end C32
